@@ -15,6 +15,8 @@ EXPR = "prqlc/prqlc-parser/src/parser/expr.rs"
 LEX = "prqlc/prqlc-parser/src/lexer/mod.rs"
 LR = "prqlc/prqlc-parser/src/lexer/lr.rs"
 IDENT = "prqlc/prqlc-parser/src/parser/pr/ident.rs"
+STMT = "prqlc/prqlc-parser/src/parser/stmt.rs"
+PMOD = "prqlc/prqlc-parser/src/parser/mod.rs"
 
 
 def codes(s):
@@ -354,6 +356,18 @@ def extract():
         "parser::func_call": (EXPR, r"fn\s+func_call\s*<"),
         "parser::case": (EXPR, r"fn\s+case\s*<"),
         "parser::maybe_aliased": (EXPR, r"fn\s+maybe_aliased\s*<"),
+        # lambdas and the statement layer (Model/FmtStmt.v)
+        "parser::lambda_func": (EXPR, r"fn\s+lambda_func\s*<"),
+        "parser::expr_call": (EXPR, r"pub\(crate\)\s+fn\s+expr_call\s*<"),
+        "parser::pipeline": (EXPR, r"pub\(crate\)\s+fn\s+pipeline\s*<"),
+        "parser::pipe": (PMOD, r"fn\s+pipe\s*<"),
+        "parser::new_line": (PMOD, r"pub\(crate\)\s+fn\s+new_line\s*<"),
+        "parser::source": (STMT, r"pub\s+fn\s+source\s*<"),
+        "parser::module_contents": (STMT, r"fn\s+module_contents\s*<"),
+        "parser::var_def": (STMT, r"fn\s+var_def\s*<"),
+        "parser::import_def": (STMT, r"fn\s+import_def\s*<"),
+        "Stmt::write": (AST, r"impl\s+WriteSource\s+for\s+pr::Stmt\s*"),
+        "Stmts::write": (AST, r"impl\s+WriteSource\s+for\s+Vec<pr::Stmt>\s*"),
     }
     got = {}
     for name, (rel, pat) in pins.items():
@@ -405,6 +419,17 @@ PINNED = {
     "parser::func_call": "39ec820c1a8b05b4",
     "parser::case": "0c70ef9af3524b8d",
     "parser::maybe_aliased": "6f50fe3f89b345fd",
+    "parser::lambda_func": "0536a283579fa01d",
+    "parser::expr_call": "e834bb355005aa6f",
+    "parser::pipeline": "e58d7e71d9de1acd",
+    "parser::pipe": "02212bfde0e08c6e",
+    "parser::new_line": "538906ec6ad6b141",
+    "parser::source": "49c702f4845a4eb0",
+    "parser::module_contents": "b6d940a52928f01a",
+    "parser::var_def": "fc9a120c4bace214",
+    "parser::import_def": "779ef6dfbd065f4e",
+    "Stmt::write": "7a40d223191d1a68",
+    "Stmts::write": "7a037f3d9fa22f69",
 }
 
 
